@@ -30,6 +30,11 @@ pub async fn handle(
                 )
             })?;
     let response = mapper::map_stream(stream);
+    // Journal the ID that was actually assigned, so that replay cannot derive another one.
+    let command = CreateStream {
+        stream_id: Some(stream.stream_id),
+        ..command
+    };
 
     let system = system.downgrade();
     system
